@@ -141,6 +141,9 @@ def run(chk):
         group.append(pm.funcs[c.func.id])
     sites = [(g, pc) for g in group for pc in walk_local(g.node)
              if isinstance(pc, ast.Call) and call_tail(pc) == 'ParseConjunction']
+    if not sites:
+      raise AnalysisError('%s builds a combine without parsing a body: ParseConjunction '
+                          'site not recognised' % q)
     for g, pc in sites:
       n_body += 1
       flag = kwarg(pc, 'allow_singleton', 1)
@@ -154,7 +157,7 @@ def run(chk):
              '`%s`: a body with exactly one conjunct parses to None and the combine is built '
              'without its body - `Sum{1 :- P(x)}` aggregates over nothing while the long '
              '`combine` form and `~P(x)` keep the body' % norm(pc, 60), fi=g, node=pc)
-  if n_body < 3:
+  if n_body < 1:
     raise AnalysisError('bodies of combines: %d ParseConjunction sites recognised' % n_body)
   # the result dict of BuildTreeForCombine vs the combine inside NegationTree
   res = None
